@@ -249,6 +249,14 @@ def run(R, tier):
     LX.check_unit_separator_typestate(R, "R02.9")
     # header mnemonics of every legal length (up to 12 characters, `*` included) reach the tree as one element
     LX.check_elements(R, "R02.9", ("mnemonic",), tier == "thorough")
+    # ---- R02.11 the tree the macros and the `const fn` constructors build ------------------------------------------------------------
+    # The branch tables above quantify over trees given as node values; users write those values with `Leaf!`, `Branch!`, `Root!`
+    # or `Node::leaf` ... `Node::root`. A witness crate (witness/echo) declares one tree with every macro form and the same tree
+    # with the constructors; both constants are evaluated from the witness crate's MIR and must be the documented structure:
+    # names and default flags as written, children in order, and `Branch!(name => handler; ..)` = the branch with its handler
+    # in a default leaf with an EMPTY name in front of the children (a named one would answer to `name:name` - seed C02-M).
+    macro_trees(R)
+
     # ---- R02.10 whole messages: the composition of the per-step tables, folded end to end --------------------------------------------
     from . import msgtable as MT
     MT.check(R, "R02.10", "resolve", tier, "Node::run on whole messages against a concrete tree (default leaves and branches at several depths and positions, numeric suffixes, an unnamed default leaf, common commands) with the real tokenizer, dispatcher and matcher analysed in place: every spelling of every header (optional nodes omitted or spelled, short / long form) runs its own handler in the form `?` selects, and in two- and three-unit messages every relative, absolute and common header resolves - or fails with -113 - as SCPI-99 6.2.4 says from the level the previous unit left", 300)
@@ -278,3 +286,68 @@ def _flatten(t):
         for x in t:
             out.extend(_flatten(x))
     return out
+
+
+def _tree_shape(eng, v, depth=0):
+    """(kind, name, default, handler type | [children]) of an evaluated Node value"""
+    from . import msgtable as MT
+    v = eng.resolve(fdai.State(), v) if not isinstance(v, fdai.EnumV) else v
+    hops = 0
+    while isinstance(v, fdai.RefV) and hops < 4:
+        v = fdai.load(fdai.Loc(v.cell, v.path))
+        hops += 1
+    if not (isinstance(v, fdai.EnumV) and v.name in ("Leaf", "Branch")) or depth > 6:
+        return ("?", repr(v)[:60])
+    f = MT._node_fields(MT.engine(), v.name)      # (field indices from the declaration of Node in the scpi crate)
+
+    def deref(x):
+        n = 0
+        while isinstance(x, fdai.RefV) and n < 4:
+            x = fdai.load(fdai.Loc(x.cell, x.path))
+            n += 1
+        return x
+    nm = deref(v.fields.get(f["name"]))
+    name = bytes(nm.b) if isinstance(nm, fdai.BytesV) else None
+    d = v.fields.get(f["default"])
+    default = d.v if isinstance(d, fdai.K) else None
+    if v.name == "Leaf":
+        h = deref(v.fields.get(f["handler"]))
+        hk = h.kind if isinstance(h, fdai.AggV) else repr(h)[:40]
+        return ("L", name, default, hk.split("::")[-1].replace("new:", "").split("<")[0])
+    sub = deref(v.fields.get(f["sub"]))
+    if isinstance(sub, fdai.ListV):
+        kids = [c.v for c in sub.cells]
+    elif isinstance(sub, fdai.AggV) and sub.kind == "array":
+        kids = [sub.fields[i] for i in sorted(sub.fields)]
+    else:
+        return ("B", name, default, "?%r" % (sub,))
+    return ("B", name, default, [_tree_shape(eng, k, depth + 1) for k in kids])
+
+
+def macro_trees(R):
+    P = facts.Merged(facts.program("dflt"), facts.program("witness"))      # the library's constructors + the witness crate
+    R.configs.append("witness")
+    u = P.unit("witness_echo")
+    eng = fdai.Engine(P, u, inline=lambda n, r: True, models=dict(M.FOLD_MODELS), loop_limit=50, max_paths=8, max_depth=30)
+    want = ("B", b"", False, [
+        ("L", b"LEAf", False, "EchoChr"),
+        ("L", b"DLEaf", True, "EchoStr"),
+        ("B", b"BRANch", False, [("L", b"SUB", False, "EchoChr"), ("L", b"OTHer", False, "EchoStr")]),
+        ("B", b"HBRanch", False, [("L", b"", True, "EchoArb"), ("L", b"SUB", False, "EchoChr")]),
+        ("B", b"DBRanch", True, [("L", b"SUB", True, "EchoChr")]),
+    ])
+    n = 0
+    for cname, what in (("MACRO_TREE", "Root! / Leaf! / Branch! in each of their forms"), ("CTOR_TREE", "Node::root / leaf / default_leaf / branch / default_branch")):
+        bs = [b for b in u.bodies if b.path.endswith("::" + cname)]
+        if len(bs) != 1:
+            R.anchor_lost("R02.11", "const %s in the witness crate" % cname)
+            continue
+        try:
+            res = eng.run(bs[0], [])
+        except (fdai.TooManyPaths, RecursionError):
+            res = []
+        got = _tree_shape(eng, res[0].retval) if len(res) == 1 and res[0].outcome == "return" else ("undecided", len(res))
+        n += 1
+        R.check(got == want, "R02.11", cname, "%s build the documented nodes (names, default flags, children in order; a branch's own handler is a default leaf with an empty name in front)" % what,
+                "%s evaluates to %s, expected %s" % (cname, got, want), where=bs[0].span)
+    R.floor("R02.11", "tree constants", n, 2)
